@@ -15,7 +15,12 @@ from props import c06 as A
 PID = "C16"
 MODULES = ["FlVerif.Props.C16"]
 NAMESPACE = "C16"
-TIE_A = ["code:fuzzylite.rule.Rule.parse", "code:fuzzylite.rule.Consequent.load", "code:fuzzylite.rule.Antecedent.load"]
+TIE_A = ["code:fuzzylite.rule.Rule.parse", "code:fuzzylite.rule.Consequent.load", "code:fuzzylite.rule.Antecedent.load",
+         "code:fuzzylite.rule.Rule.load", "code:fuzzylite.rule.Rule.unload", "code:fuzzylite.rule.Rule.is_loaded",
+         "code:fuzzylite.rule.Antecedent.unload", "code:fuzzylite.rule.Antecedent.is_loaded",
+         "code:fuzzylite.rule.Consequent.unload", "code:fuzzylite.rule.Consequent.is_loaded",
+         "code:fuzzylite.rule.RuleBlock.load_rules", "code:fuzzylite.rule.RuleBlock.unload_rules",
+         "code:fuzzylite.rule.RuleBlock.reload_rules"]
 RULE = ("valid rules (antecedents to depth 3 with hedges / any / parentheses, 1-3 conclusions with hedges, optional weight) "
         "over generated engines, mutated by token deletion, duplication, substitution (keywords, valid and unknown names, "
         "numbers, parentheses), truncation at every token boundary, reordering, plus one-error injections of every listed "
